@@ -24,7 +24,7 @@ pub fn plan(prop: &str, tier: Tier) -> Option<(&'static str, Vec<Job>)> {
             Job::new("authgate", if q { 24 } else { 300 }).workers(12),
             Job::new("permhist", if q { 800 } else { 30_000 }),
         ],
-        "C10" => vec![Job::new("creds", if q { 800 } else { 30_000 })],
+        "C10" => vec![Job::new("creds", if q { 2400 } else { 30_000 })],
         "C11" => vec![
             Job::new("journal-tamper", if q { 128 } else { 6_000 }).timeout(600).shrink(12),
             Job::new("journal-sched", if q { 1600 } else { 60_000 }).shrink(60),
